@@ -74,6 +74,12 @@ def main(argv=None):
         seed = int(os.environ.get('VERIF_SEED', '0') or 0)
     except ValueError:
         seed = 0
+    try:
+        import resource
+        lim = int(os.environ.get('VERIF_AS_LIMIT_GB', '2')) * 2 ** 30
+        resource.setrlimit(resource.RLIMIT_AS, (lim, lim))
+    except Exception:
+        pass
     engine.setup_lentil()
     mod = importlib.import_module(f'mc.props.{pid.lower()}')
 
@@ -85,16 +91,17 @@ def main(argv=None):
     info = mod.run(a.tier, seed, acc, a.procs) or {}
     wall = time.time() - t0
 
-    # non-vacuity / machinery self-checks
-    for need, minimum in (info.get('require') or {}).items():
-        if acc.classes.get(need, 0) < minimum:
-            acc.errors.append(f'vacuity: class {need!r} count {acc.classes.get(need, 0)} < {minimum}')
-
     known = load_known()
     kf = {f['key']: f for f in known.get('findings', []) if f['property'] == pid}
     seen_known, new = [], []
     for key in sorted(acc.viol):
         (seen_known if key in kf else new).append(key)
+
+    # non-vacuity / machinery self-checks (only meaningful for a run that was not cut short by violations)
+    if not new:
+        for need, minimum in (info.get('require') or {}).items():
+            if acc.classes.get(need, 0) < minimum:
+                acc.errors.append(f'vacuity: class {need!r} count {acc.classes.get(need, 0)} < {minimum}')
 
     ev = {
         'property_id': pid, 'tier': a.tier, 'seed': seed, 'level': 'model_checking',
